@@ -79,15 +79,6 @@ def blankLineSplitsEntry (doc : Bytes) (errLines : List Nat) : Bool :=
     isWsOnly (ls.getD i []) && !errLines.contains (i + 1) &&
       (match (ls.getD (i + 1) []).head? with | some b => isBlankOrCR b | none => false)
 
-/-- Guard of the known finding `crlf-blank-comment`: a rewritten posting whose comment consists
-    only of blanks and the CR of a CRLF line end.  The lexer takes the CR into the comment (so
-    the line parses); the formatter drops the blank comment, the CR stays as line terminator
-    and the lexer then reports the bare CR as an unexpected token (CRLF is not supported by the
-    lexer, DESIGN 8 #4). -/
-def crlfBlankComment (tree : Journal) (errLines : List Nat) : Bool :=
-  (allPostings tree).any fun p =>
-    !errLines.contains p.range.start.line && p.comment.contains 13 && p.comment.all isBlankOrCR
-
 /-- What both oracles need first: the edits apply, and harness and driver agree on the result. -/
 def applied (j : Json) (doc : Bytes) (implE : List Edit) : Except String Bytes := do
   let some doc2 := applyEdits doc implE | throw "edits cannot be applied (overlap or start > end)"
@@ -174,8 +165,7 @@ def format (j : Json) : Json :=
   let known : Array Json :=
     if !(v5.ok && v4.ok) && lenientOk then
       (if gluedLeftCommodity doc tree formats errLines then #[Json.str "glued-left-commodity"] else #[]) ++
-      (if blankLineSplitsEntry doc errLines then #[Json.str "trimmed-blank-line-splits-entry"] else #[]) ++
-      (if crlfBlankComment tree errLines then #[Json.str "crlf-blank-comment"] else #[])
+      (if blankLineSplitsEntry doc errLines then #[Json.str "trimmed-blank-line-splits-entry"] else #[])
     else #[]
   let why := if !v5.ok then v5.why else v4.why
   Json.mkObj [("model", arrJ editJ edits), ("in_domain", inDomain), ("spec_ok", v5.ok && v4.ok), ("why", why),
